@@ -56,12 +56,14 @@ def fault_points(shape):
     return pts
 
 
-def req(ci, i, version="1.1"):
-    return "GET /c%d/r%d HTTP/%s\r\nHost: h\r\nX-Conn: %d\r\n\r\n" % (ci, i, version, ci)
+def req(ci, i, version="1.1", method="GET"):
+    return "%s /c%d/r%d HTTP/%s\r\nHost: h\r\nX-Conn: %d\r\n\r\n" % (method, ci, i, version, ci)
 
 
 def to_scenario(case):
     beh = dict(SHAPES[case["shape"]], status="200 OK")
+    if case.get("method") == "HEAD" and beh["mode"] == "fw":
+        beh["fw_on_head"] = True
     if case.get("fw_close_raises") and beh["mode"] == "fw":
         beh["fw"] = dict(beh["fw"], close_raises=True)     # the wrapped file's own close() fails (an application failure, too)
     if case.get("raise_at"):
@@ -70,7 +72,8 @@ def to_scenario(case):
         if case.get("recall"):
             beh["recall"] = True
     adj = {"threads": case.get("workers", 1), "expose_tracebacks": bool(case.get("expose")), "log_socket_errors": case.get("log_socket_errors", True)}
-    victim = {"segments": [req(0, 0), req(0, 1)] if case.get("split") else [req(0, 0) + req(0, 1)], "capacity": case.get("capacity"),
+    m_ = case.get("method", "GET")
+    victim = {"segments": [req(0, 0, method=m_), req(0, 1, method=m_)] if case.get("split") else [req(0, 0, method=m_) + req(0, 1, method=m_)], "capacity": case.get("capacity"),
               "drain": case.get("drain", "all")}
     if case.get("early") == "eof":
         victim["eof"] = True
@@ -98,6 +101,8 @@ def validate(case):
     ra = case.get("raise_at")
     if ra is not None and ra not in fault_points(SHAPES[case["shape"]]):
         raise C.CaseInvalid("raise_at")
+    if case.get("method", "GET") not in ("GET", "HEAD"):
+        raise C.CaseInvalid("method")
     if case.get("exc", "ValueError") not in EXCS or case.get("gran", "sync") not in ("sync", "line") or case.get("workers", 1) not in (1, 2):
         raise C.CaseInvalid("exc")
     if case.get("second") is not None and (not isinstance(case["second"], int) or not (0 <= case["second"] < len(SHAPES)) or case.get("raise_at")):
@@ -116,11 +121,11 @@ def validate(case):
 _ok_wire = {}
 
 
-def fault_free_wire(shape_idx):
-    if shape_idx not in _ok_wire:
-        r, _s = run_scenario(to_scenario({"shape": shape_idx})[0], simsched.Source())
-        _ok_wire[shape_idx] = r.conns[0]["rx"]
-    return _ok_wire[shape_idx]
+def fault_free_wire(shape_idx, method="GET"):
+    if (shape_idx, method) not in _ok_wire:
+        r, _s = run_scenario(to_scenario({"shape": shape_idx, "method": method})[0], simsched.Source())
+        _ok_wire[(shape_idx, method)] = r.conns[0]["rx"]
+    return _ok_wire[(shape_idx, method)]
 
 
 def run_case_full(case, source=None, record=False):
@@ -160,9 +165,10 @@ def run_case_full(case, source=None, record=False):
     vic = r.conns[0]
     wire = vic["rx"] + vic["pending"]
     if exc and hit:
-        good = fault_free_wire(case["shape"])
+        good = fault_free_wire(case["shape"], case.get("method", "GET"))
         first_good = good   # response of request 0 followed by response of request 1
-        rs0, _u0, prob0 = RESP.parse_responses(wire, [b"GET", b"GET"], eof=vic["closed"], final_marker=b"x-call")
+        vm = s2b(case.get("method", "GET"))
+        rs0, _u0, prob0 = RESP.parse_responses(wire, [vm, vm], eof=vic["closed"], final_marker=b"x-call")
         finals = [x for x in rs0 if not x.interim]
         # what did the application hand over before failing?  judged from the wire: does it start with an application response?
         app_started = bool(finals) and bool(finals[0].get(b"x-call"))
@@ -205,6 +211,9 @@ def run_case(case):
 def enum_cases():
     for si, shape in enumerate(SHAPES):
         yield {"shape": si}
+        yield {"shape": si, "method": "HEAD"}
+        for pt in fault_points(shape):
+            yield {"shape": si, "method": "HEAD", "raise_at": pt, "exc": "ValueError"}
         for pt in fault_points(shape):
             for exc in EXCS:
                 for expose in (False, True):
@@ -224,6 +233,7 @@ def disconnect_cases():
                 yield {"shape": si, "send_fault": k, "send_errno": errno_, "capacity": 40, "drain": 16}
         for n in sorted(set([1, 10, 50, 100, 150, 200, max(1, total - 1)])):
             yield {"shape": si, "reset_after_rx": n, "capacity": 40, "drain": 16}
+            yield {"shape": si, "reset_after_rx": n, "capacity": 40, "drain": 16, "method": "HEAD"}
             yield {"shape": si, "reset_after_rx": n, "capacity": 40, "drain": 16, "workers": 2}
     # two responses queued on one connection when it is torn down (the second request is pipelined), wrapped files whose close() fails
     for si in (8, 9, 3):
@@ -256,7 +266,7 @@ def case_strategy():
     def build(draw):
         si = draw(st.integers(0, len(SHAPES) - 1))
         case = {"shape": si, "gran": draw(st.sampled_from(["sync", "line"])), "schedule": draw(S.schedule_strategy()),
-                "workers": draw(st.sampled_from([1, 2]))}
+                "workers": draw(st.sampled_from([1, 2])), "method": draw(st.sampled_from(["GET", "GET", "GET", "HEAD"]))}
         kind = draw(st.sampled_from(["exc", "exc", "reset", "sendfault", "early", "early"]))
         if kind == "early":
             case.update(early=draw(st.sampled_from(["eof", "reset"])), lookahead=draw(st.sampled_from([1, 2])))
